@@ -273,23 +273,23 @@ func gcForced() []gcShape {
 	mp := func(t sx) sx { return T("map", tString, t) }
 	sl := func(t sx) sx { return T("slice", t) }
 	return []gcShape{
-		{mapOf(long), ptr(mp(tInt(64)))},                         // *map[string]T
-		{mapOf(str), ptr(mp(tString))},                            // *map[string]string
-		{mapOf(mapOf(str)), mp(mp(tString))},                      // map[string]map[string]T
-		{mapOf(mapOf(long)), ptr(mp(ptr(mp(tInt(64)))))},          // *map[string]*map[string]T
-		{mapOf(arrOf(str)), mp(sl(tString))},                      // map[string][]T
-		{mapOf(arrOf(long)), mp(ptr(sl(tInt(64))))},               // map[string]*[]T
-		{arrOf(str), ptr(sl(tString))},                            // *[]T
-		{arrOf(arrOf(str)), ptr(sl(ptr(sl(tString))))},            // *[]*[]T
+		{mapOf(long), ptr(mp(tInt(64)))},                                     // *map[string]T
+		{mapOf(str), ptr(mp(tString))},                                       // *map[string]string
+		{mapOf(mapOf(str)), mp(mp(tString))},                                 // map[string]map[string]T
+		{mapOf(mapOf(long)), ptr(mp(ptr(mp(tInt(64)))))},                     // *map[string]*map[string]T
+		{mapOf(arrOf(str)), mp(sl(tString))},                                 // map[string][]T
+		{mapOf(arrOf(long)), mp(ptr(sl(tInt(64))))},                          // map[string]*[]T
+		{arrOf(str), ptr(sl(tString))},                                       // *[]T
+		{arrOf(arrOf(str)), ptr(sl(ptr(sl(tString))))},                       // *[]*[]T
 		{&asch{kind: "fixed", n: 4}, ptr(T("array", I(4), T("uint", I(8))))}, // *[4]byte
 		{arrOf(&asch{kind: "fixed", n: 16}), sl(ptr(T("array", I(16), T("uint", I(8)))))},
-		{arrOf(long), sl(ptr(tInt(64)))},                          // []*T
-		{arrOf(str), sl(ptr(tString))},                            // []*string
-		{inner, ptr(innerT)},                                      // *struct
-		{arrOf(inner), sl(ptr(innerT))},                           // []*struct
-		{mapOf(inner), mp(ptr(innerT))},                           // map[string]*struct
-		{mapOf(nullable(inner)), mp(ptr(innerT))},                 // map[string]*struct under a nullable union
-		{nullable(mapOf(str)), ptr(mp(tString))},                  // *map under a nullable union
+		{arrOf(long), sl(ptr(tInt(64)))},          // []*T
+		{arrOf(str), sl(ptr(tString))},            // []*string
+		{inner, ptr(innerT)},                      // *struct
+		{arrOf(inner), sl(ptr(innerT))},           // []*struct
+		{mapOf(inner), mp(ptr(innerT))},           // map[string]*struct
+		{mapOf(nullable(inner)), mp(ptr(innerT))}, // map[string]*struct under a nullable union
+		{nullable(mapOf(str)), ptr(mp(tString))},  // *map under a nullable union
 		{nullable(arrOf(str)), ptr(sl(tString))},
 		{nullable(str), ptr(tString)},
 		{arrOf(nullable(str)), sl(ptr(tString))},
